@@ -18,12 +18,23 @@ open Poetry Poetry.Generic
 
 /-- a reversed-operand leaf `"v" in name` / `"v" not in name` on a canonical string variable defined by `E`; the values
 of the `not in` leaves satisfy `C` -/
-def RevLeaf (C : String → Prop) (E : Env) (l : Leaf) : Prop :=
-  ∃ n ops gop v, (ops, gop) ∈ inOps ∧ n ∈ plainStringVars ∧ PlainTok v ∧ (∃ ev, E.get? n = some ev) ∧
+def RevLeafW (W' : String → Prop) (C : String → Prop) (E : Env) (l : Leaf) : Prop :=
+  ∃ n ops gop v, (ops, gop) ∈ inOps ∧ n ∈ plainStringVars ∧ PlainTok v ∧ W' v ∧ (∃ ev, E.get? n = some ev) ∧
     (gop = Generic.Op.nc → C v) ∧ l = .single ⟨n, ops, v, true, .gen (.s (.atom ⟨v, gop, false⟩))⟩
 
+/-- no condition on the values beyond plain tokens -/
+def RevLeaf (C : String → Prop) (E : Env) (l : Leaf) : Prop := RevLeafW (fun _ => True) C E l
+
 /-- string leaves with all four operators -/
-def Str4Leaf (C : String → Prop) (E : Env) (l : Leaf) : Prop := PlainStrLeaf E l ∨ RevLeaf C E l
+def Str4LeafW (W W' : String → Prop) (C : String → Prop) (E : Env) (l : Leaf) : Prop :=
+  StrLeafW (fun n => n ∈ plainStringVars) W E l ∨ RevLeafW W' C E l
+
+/-- plain values -/
+def Str4Leaf (C : String → Prop) (E : Env) (l : Leaf) : Prop := Str4LeafW PlainValue (fun _ => True) C E l
+
+theorem mkAtomOKW_of {W : String → Prop} (hW : ∀ v, W v → PlainValue v) (E : Env) :
+    MkAtomOKW (fun n => n ∈ plainStringVars) W E :=
+  fun n a s hn hv hx hp he hxa hea h => mkAtomOKW_plain E n a s hn (hW _ hv) hx hp he hxa hea h
 
 /-- the shape of the constraint of such a leaf -/
 def Shape4 (C : String → Prop) (gc : GC) : Prop :=
@@ -39,12 +50,12 @@ theorem inOps_gop {ops : String} {gop : Generic.Op} (h : (ops, gop) ∈ inOps) :
   simp only [inOps, List.mem_cons, Prod.mk.injEq, List.mem_nil_iff, or_false] at h
   rcases h with ⟨_, rfl⟩ | ⟨_, rfl⟩ <;> simp
 
-theorem str4Leaf_view {C : String → Prop} {E : Env} {l : Leaf} (h : Str4Leaf C E l) :
+theorem str4Leaf_view {W W' : String → Prop} {C : String → Prop} {E : Env} {l : Leaf} (h : Str4LeafW W W' C E l) :
     (l.name == "extra") = false ∧ isPyName l.name = false ∧ l.name ∈ plainStringVars ∧
     ∃ gc v, l.c = .gen gc ∧ gc.wf4 = true ∧ Shape4 C gc ∧
-      (∀ x ∈ gc.atoms, x.isEqNe = true → PlainValue x.value) ∧
+      (∀ x ∈ gc.atoms, x.isEqNe = true → W x.value) ∧
       E.get? l.name = some v ∧ l.validate E = .ok (gc.den v) := by
-  rcases h with h | ⟨n, ops, gop, v, hop, hn, hv, ⟨ev, hev⟩, hC, rfl⟩
+  rcases h with h | ⟨n, ops, gop, v, hop, hn, hv, _, ⟨ev, hev⟩, hC, rfl⟩
   · obtain ⟨h1, h2, gc, v, hc, hw, hv, he⟩ := strLeaf_view h.1
     refine ⟨h1, h2, h.2.1, gc, v, hc, GC.wf4_of_wfG hw, Or.inl hw, ?_, hv, he⟩
     intro x hx _
@@ -58,7 +69,8 @@ theorem str4Leaf_view {C : String → Prop} {E : Env} {l : Leaf} (h : Str4Leaf C
     · simp only [Leaf.validate]
       exact validateLike_gen n _ E b1 ev hev
 
-theorem str4Leaf_evaluable {C : String → Prop} {E : Env} {l : Leaf} (h : Str4Leaf C E l) :
+theorem str4Leaf_evaluable {W W' : String → Prop} {C : String → Prop} {E : Env} {l : Leaf}
+    (h : Str4LeafW W W' C E l) :
     ∃ b, l.validate E = .ok b := by
   obtain ⟨_, _, _, gc, v, _, _, _, _, _, hv⟩ := str4Leaf_view h
   exact ⟨_, hv⟩
@@ -141,7 +153,7 @@ macro "str4_tail" : tactic => `(tactic| (
             simp [GS.wfG, Generic.Atom.isEqNe, wf4_atom hm4, hop]
           | _ => simp [atomOpsWithin] at hop
         have hs : StrLeaf E (.aunion l1.name (.union ms)) := ⟨hx1, hp1, ⟨v2, hv1⟩, hwG⟩
-        have hsw : PlainStrLeaf E (.aunion l1.name (.union ms)) := by
+        have hsw : StrLeafW (fun n => n ∈ plainStringVars) W E (.aunion l1.name (.union ms)) := by
           refine ⟨hs, hn1, ?_⟩
           intro x hx
           have hx' : x ∈ (GC.union ms).atoms := by simpa [leafAtoms, Leaf.c] using hx
@@ -177,7 +189,7 @@ macro "str4_tail" : tactic => `(tactic| (
             have := List.all_eq_true.1 hall c hc
             simpa using this
           have hs : StrLeaf E (.amulti l1.name (.s (.multi x cs))) := ⟨hx1, hp1, ⟨v2, hv1⟩, hwG⟩
-          have hsw : PlainStrLeaf E (.amulti l1.name (.s (.multi x cs))) := by
+          have hsw : StrLeafW (fun n => n ∈ plainStringVars) W E (.amulti l1.name (.s (.multi x cs))) := by
             refine ⟨hs, hn1, ?_⟩
             intro y hy
             have hy' : y ∈ (GC.s (.multi x cs)).atoms := by simpa [leafAtoms, Leaf.c] using hy
@@ -201,10 +213,10 @@ macro "str4_tail" : tactic => `(tactic| (
         have hWa := hv0 a (by simp [GC.atoms, GS.atoms])
         by_cases hea : a.isEqNe = true
         · obtain ⟨k1, k2, k3, k4, k5⟩ :=
-            mkAtomOKW_plain E l1.name a s hn1 (hWa.1 hea) hx1 hp1 ⟨v2, hv1⟩ hxa hea hs
+            mkAtomOKW_of hW E l1.name a s hn1 (hWa.1 hea) hx1 hp1 ⟨v2, hv1⟩ hxa hea hs
           have hsl : StrLeaf E (.single s) := by
             refine ⟨by rw [k1]; exact hx1, by rw [k1]; exact hp1, ⟨v2, by rw [k1]; exact hv1⟩, k2, a, k3, hxa, hea, k4, k5⟩
-          have hslw : PlainStrLeaf E (.single s) := by
+          have hslw : StrLeafW (fun n => n ∈ plainStringVars) W E (.single s) := by
             refine ⟨hsl, by simpa [Leaf.name, k1] using hn1, ?_⟩
             intro x hx
             simp only [leafAtoms, Leaf.c, k3, GC.atoms, GS.atoms, List.mem_singleton] at hx
@@ -257,10 +269,11 @@ macro "str4_tail" : tactic => `(tactic| (
 /-- **`_merge_single_markers` on two string leaves with any of the four operators** (values of the `not in` leaves
 pairwise comparable by containment): every outcome is a leaf of the fragment and is the exact
 conjunction / disjunction -/
-theorem str4Leaf_merge {C : String → Prop} (hC : ∀ u v, C u → C v → strIn u v = true ∨ strIn v u = true)
+theorem str4Leaf_merge {W W' : String → Prop} (hW : ∀ v, W v → PlainValue v) {C : String → Prop}
+    (hC : ∀ u v, C u → C v → strIn u v = true ∨ strIn v u = true)
     {E : Env} (l1 l2 : Leaf) (im : Bool) (r : M)
-    (hh1 : Str4Leaf C E l1) (hh2 : Str4Leaf C E l2) (h : mergeLeaves l1 l2 im = .ok (some r)) :
-    M.Good (Str4Leaf C E) r ∧
+    (hh1 : Str4LeafW W W' C E l1) (hh2 : Str4LeafW W W' C E l2) (h : mergeLeaves l1 l2 im = .ok (some r)) :
+    M.Good (Str4LeafW W W' C E) r ∧
       M.sem (leafEval E) r = (if im then (leafEval E l1 && leafEval E l2) else (leafEval E l1 || leafEval E l2)) := by
   obtain ⟨hx1, hp1, hn1, g1, v1, hc1, hw1, sh1, hW1, hv1, he1⟩ := str4Leaf_view hh1
   obtain ⟨hx2, hp2, hn2, g2, v2, hc2, hw2, sh2, hW2, hv2, he2⟩ := str4Leaf_view hh2
@@ -281,7 +294,7 @@ theorem str4Leaf_merge {C : String → Prop} (hC : ∀ u v, C u → C v → strI
   subst hv
   rw [hc1, hc2] at h
   dsimp only at h
-  let Wat : Generic.Atom → Prop := fun x => (x.isEqNe = true → PlainValue x.value) ∧ (x ∈ g1.atoms ∨ x ∈ g2.atoms)
+  let Wat : Generic.Atom → Prop := fun x => (x.isEqNe = true → W x.value) ∧ (x ∈ g1.atoms ∨ x ∈ g2.atoms)
   have hA1 : ∀ x ∈ g1.atoms, Wat x := fun x hx => ⟨hW1 x hx, Or.inl hx⟩
   have hA2 : ∀ x ∈ g2.atoms, Wat x := fun x hx => ⟨hW2 x hx, Or.inr hx⟩
   have key : ∃ r0, (if im = true then (LeafC.gen g1).intersect (.gen g2) else (LeafC.gen g1).union (.gen g2)) =
@@ -312,10 +325,11 @@ theorem inOps_inj {ops : String} {g1 g2 : Generic.Op} (h1 : (ops, g1) ∈ inOps)
   simp only [inOps, List.mem_cons, Prod.mk.injEq, List.mem_nil_iff, or_false] at h1 h2
   rcases h1 with ⟨rfl, rfl⟩ | ⟨rfl, rfl⟩ <;> rcases h2 with ⟨h, rfl⟩ | ⟨h, rfl⟩ <;> first | rfl | (revert h; decide)
 
-theorem str4Leaf_congr {C : String → Prop} {E : Env} (a b : Leaf) (ha : Str4Leaf C E a) (hb : Str4Leaf C E b)
+theorem str4Leaf_congr {W W' : String → Prop} {C : String → Prop} {E : Env} (a b : Leaf)
+    (ha : Str4LeafW W W' C E a) (hb : Str4LeafW W W' C E b)
     (h : Leaf.beq a b = true) : leafEval E a = leafEval E b := by
-  rcases ha with ha | ⟨n1, o1, g1, v1, hop1, _, _, _, _, rfl⟩
-  · rcases hb with hb | ⟨n2, o2, g2, v2, hop2, _, _, _, _, rfl⟩
+  rcases ha with ha | ⟨n1, o1, g1, v1, hop1, _, _, _, _, _, rfl⟩
+  · rcases hb with hb | ⟨n2, o2, g2, v2, hop2, _, _, _, _, _, rfl⟩
     · exact strLeaf_congr a b ha.1 hb.1 h
     · -- orientation differs
       exfalso
@@ -326,7 +340,7 @@ theorem str4Leaf_congr {C : String → Prop} {E : Env} (a b : Leaf) (ha : Str4Le
         rw [hsw] at h; exact absurd h.2 (by decide)
       | amulti _ _ => simp [Leaf.beq] at h
       | aunion _ _ => simp [Leaf.beq] at h
-  · rcases hb with hb | ⟨n2, o2, g2, v2, hop2, _, _, _, _, rfl⟩
+  · rcases hb with hb | ⟨n2, o2, g2, v2, hop2, _, _, _, _, _, rfl⟩
     · exfalso
       cases b with
       | single s =>
@@ -341,10 +355,14 @@ theorem str4Leaf_congr {C : String → Prop} {E : Env} (a b : Leaf) (ha : Str4Le
 
 /-- **`LeafSpec` on string leaves with all four operators**, the values of the `not in` leaves pairwise comparable
 by containment: no other hypothesis -/
-theorem leafSpec_str4 {C : String → Prop} (hC : ∀ u v, C u → C v → strIn u v = true ∨ strIn v u = true)
-    (E : Env) : LeafSpec (leafEval E) (Str4Leaf C E) where
+theorem leafSpec_str4W {W W' : String → Prop} (hW : ∀ v, W v → PlainValue v) {C : String → Prop}
+    (hC : ∀ u v, C u → C v → strIn u v = true ∨ strIn v u = true)
+    (E : Env) : LeafSpec (leafEval E) (Str4LeafW W W' C E) where
   congr := fun a b ha hb h => str4Leaf_congr a b ha hb h
-  merge := fun l1 l2 im r h1 h2 h => str4Leaf_merge hC l1 l2 im r h1 h2 h
+  merge := fun l1 l2 im r h1 h2 h => str4Leaf_merge hW hC l1 l2 im r h1 h2 h
+
+theorem leafSpec_str4 {C : String → Prop} (hC : ∀ u v, C u → C v → strIn u v = true ∨ strIn v u = true)
+    (E : Env) : LeafSpec (leafEval E) (Str4Leaf C E) := leafSpec_str4W (fun _ h => h) hC E
 
 /-- the reversed-operand `not in` leaf -/
 def revNotIn (n v : String) : Single := ⟨n, "not in", v, true, .gen (.s (.atom ⟨v, .nc, false⟩))⟩
